@@ -350,6 +350,8 @@ func Check(env *core.Env, rep *core.Report) *core.Result {
 	// "esc": complete escape sequences; "esccut": an external producer writes its output in two
 	// pieces, the first ending inside an escape sequence (the prefixed format strips escape
 	// sequences from what it displays - the captured bytes must not be affected)
+	// text that looks like template syntax is text
+	payloads["braces"] = []byte("a {{ b }} and {{.NoSuchVariable}} and an unclosed {{ \n{{end}}\n")
 	payloads["esc"] = []byte("\x1b[1mbold\x1b[0m and \x1b[31mred\x1b[0m\n")
 	payloads["esccut"] = []byte("ab\x1b[1mcdefghijklmnopqrstuvwxyz0123456789\x1b[0m\n")
 	var pnames []string
